@@ -70,9 +70,11 @@ func seqProfile(prop string, g *Gen, cfg *Config, rng *SplitMix) (steps int) {
 		g.BadBias = 25
 		steps = 18 + rng.Intn(20)
 	case "C10":
+		g.RawPct = 15
 		g.BadBias = 45
 		g.W["sequence"] = 14
 	case "C11":
+		g.RawPct = 25
 		g.W["plan"] = 30
 		g.Text = "unicode"
 		g.BadBias = 25
@@ -85,12 +87,14 @@ func seqProfile(prop string, g *Gen, cfg *Config, rng *SplitMix) (steps int) {
 		g.W["plan"] = 5
 		g.BadBias = 30
 	case "C16":
+		g.RawPct = 10
 		g.W["sequence"] = 20
 		g.W["plan"] = 8
 		g.ForcePct = 8
 		g.Human = 0
 		g.BadBias = 20
 	case "C17":
+		g.RawPct = 5
 		g.Text = "unicode"
 		if rng.Chance(1, 3) {
 			g.Text = "huge"
